@@ -110,6 +110,9 @@ func checkC03(c *Ctx) {
 	checkBodyAssigned(c, ev)
 	checkBinderLoops(c, ev)
 	checkInnerArraysKept(c, "C03.R2.inner-arrays-kept", ev)
+	checkBodyStreamNotClosed(c, ev)
+	checkSliceValidatorSeesValue(c, ev)
+	checkInnerValidatorUnconditional(c, ev)
 	checkRangeFilters(c, "C03.R2.range-filters", ev, reviewedRangeFilters, 25)
 	checkDefaultInitAgreement(c, ev)
 
@@ -629,4 +632,105 @@ func checkBodyAssigned(c *Ctx, ev *tmpl.Evaluator) {
 	}
 	c.Check(bad == "", rule, "bodyvalidator › the decoded body is assigned under every strategy", l.Tree.File, fmt.Sprintf("2^%d valuations, %d assignments", len(keys), len(conds)),
 		"with {"+bad+"} true no `param = body` assignment is emitted: the request body is decoded and then dropped, the handler receives an empty parameter")
+}
+
+
+// checkBodyStreamNotClosed: a streamed body (format: binary) is handed to the handler as r.Body;
+// BindRequest must not schedule its closing — the handler reads it after BindRequest returned.
+func checkBodyStreamNotClosed(c *Ctx, ev *tmpl.Evaluator) {
+	rule := "C03.R2.stream-open"
+	c.Rule(rule, "`defer r.Body.Close()` is emitted only on the paths that consume the body inside BindRequest (never under .Schema.IsStream, never unconditionally before that test)", 1)
+	l := linearOf(c, ev, "serverParameter")
+	if l == nil {
+		c.Anchor(rule, "template serverParameter", "not found")
+		return
+	}
+	occ := l.Find(regexp.MustCompile(`defer \w+\.Body\.Close\(\)`))
+	if len(occ) == 0 {
+		c.Unk(rule, "serverParameter › defer r.Body.Close()", l.Tree.File, "not found")
+		return
+	}
+	for i, oc := range occ {
+		ok := tmpl.GuardHas(oc.Guards, "IsStream", -1)
+		c.Check(ok, rule, fmt.Sprintf("serverParameter › BindRequest › defer Body.Close #%d", i+1), l.Tree.PosStr(oc.Pos), "under the not-a-stream arm",
+			"the body is closed when BindRequest returns on a path that includes streamed bodies ["+tmpl.GuardString(oc.Guards)+"]: the handler of a `format: binary` body reads a closed body")
+	}
+}
+
+// checkSliceValidatorSeesValue: the slice validator of a body array reads the parameter's field
+// (o.X), not the local `body`: wherever the body validator calls it, the field has been assigned
+// from the decoded body just before, under the same conditions.
+func checkSliceValidatorSeesValue(c *Ctx, ev *tmpl.Evaluator) {
+	rule := "C03.R2.validated-value"
+	c.Rule(rule, "in the body validator, every call of the slice validator directly follows the assignment of the decoded body to the parameter's field", 1)
+	l := linearOf(c, ev, "bodyvalidator")
+	if l == nil {
+		c.Anchor(rule, "template bodyvalidator", "not found")
+		return
+	}
+	n := 0
+	assign := regexp.MustCompile(`^⟦\.ReceiverName⟧\.⟦pascalize \.Name⟧ = (⟦[^⟧]*⟧)?&?\w+$`)
+	for _, tc := range l.Calls {
+		if tc.Name != "sliceparamvalidator" {
+			continue
+		}
+		n++
+		prev := strings.TrimRight(l.Text[:tc.Offset], " \t\n")
+		off := len(prev)
+		if j := strings.LastIndexByte(prev, '\n'); j >= 0 {
+			prev = prev[j+1:]
+			off = j + 1
+		}
+		same := tmpl.GuardString(l.GuardsAt(off+strings.Index(l.Text[off:], strings.TrimSpace(prev)))) == tmpl.GuardString(tc.Guards)
+		ok := assign.MatchString(strings.TrimSpace(prev)) && same
+		c.Check(ok, rule, fmt.Sprintf("bodyvalidator › slice validator call #%d sees the decoded value", n), l.Tree.PosStr(tc.Pos), "preceded by <receiver>.<Name> = body",
+			"the slice validator (which reads the parameter's field) is called after `"+strings.TrimSpace(prev)+"`, not after the assignment of the decoded body to the field: maxItems / uniqueItems are checked on an empty slice and never fail")
+	}
+	if n == 0 {
+		c.Unk(rule, "bodyvalidator › slice validator calls", l.Tree.File, "none found")
+	}
+}
+
+// checkInnerValidatorUnconditional: the size validations of an inner array (minItems…) apply to
+// every inner array, the empty ones first of all: the call of the slice validator in the nested
+// binder must not sit inside the `if len(inner) > 0 {` that guards the recursion.
+func checkInnerValidatorUnconditional(c *Ctx, ev *tmpl.Evaluator) {
+	rule := "C03.R2.inner-validated"
+	c.Rule(rule, "in sliceparambinder the slice validator of an inner array is called before (outside) the non-emptiness test of that inner array", 1)
+	l := linearOf(c, ev, "sliceparambinder")
+	if l == nil {
+		c.Anchor(rule, "template sliceparambinder", "not found")
+		return
+	}
+	conds := l.Find(regexp.MustCompile(`if len\(⟦[^⟧]*⟧C\) > 0 \{`))
+	n := 0
+	for _, tc := range l.Calls {
+		if tc.Name != "sliceparamvalidator" {
+			continue
+		}
+		n++
+		inside := false
+		for _, cd := range conds {
+			if cd.Start < tc.Offset {
+				// is the block still open at the call?
+				depth := 1
+				for _, ch := range l.Text[cd.End:tc.Offset] {
+					switch ch {
+					case '{':
+						depth++
+					case '}':
+						depth--
+					}
+				}
+				if depth > 0 {
+					inside = true
+				}
+			}
+		}
+		c.Check(!inside, rule, fmt.Sprintf("sliceparambinder › slice validator call #%d applies to empty inner arrays too", n), l.Tree.PosStr(tc.Pos), "outside `if len(inner) > 0 {`",
+			"the validations of the inner array are only run when it is not empty: minItems of an inner array is never enforced on `[]`")
+	}
+	if n == 0 {
+		c.Unk(rule, "sliceparambinder › slice validator calls", l.Tree.File, "none found")
+	}
 }
